@@ -406,9 +406,11 @@ class Flow(object):
     fact universe is the function's own branch conditions and `custom` is drawn
     from a finite set chosen by the rule."""
 
-    def __init__(self, cfg, init, step, use_facts=True, edge=None, max_states=20000):
+    def __init__(self, cfg, init, step, use_facts=True, edge=None, max_states=20000, volatile=None):
         """step(node, custom) -> custom | list of customs (effect of executing node)
-        edge(node, succ, label, custom) -> custom | None  (optional refinement per edge)"""
+        edge(node, succ, label, custom) -> custom | None  (optional refinement per edge)
+        volatile(fact text) -> bool: facts about state shared with other threads; they are forgotten whenever a
+        lock is (re)acquired (`with` entry, .acquire()), because another thread may have changed them meanwhile"""
         self.cfg = cfg
         self.step = step
         self.edge = edge
@@ -439,6 +441,10 @@ class Flow(object):
                         facts2 = f_
             else:
                 facts2 = facts
+            if volatile is not None and use_facts and node.ast is not None and (
+                    node.kind == 'with_enter' or (node.kind == 'stmt' and isinstance(node.ast, ast.Expr) and isinstance(node.ast.value, ast.Call)
+                                                  and isinstance(node.ast.value.func, ast.Attribute) and node.ast.value.func.attr == 'acquire')):
+                facts2 = Facts(frozenset((k, p) for k, p in facts2.items if not volatile(k)))
             for c in outs:
                 if c is None:
                     continue
